@@ -1108,24 +1108,29 @@ Proof.
     rewrite H0. ex_p_unfold. unfold ex_v. cbn [In]. tauto.
 Qed.
 
-(* FINDINGS (the model answers like the library, checked on dictIO: DictReader.read of the texts in the comments).
-   An index that is out of range, or an index on a value that is not a list, is NOT left unresolved: the exception of
-   the subscript is suppressed and the reference resolves to the WHOLE referenced value.  Inside an arithmetic
-   expression the list is then substituted as text and eval raises TypeError (not caught by the library; the model
-   answers "outside": None).                                                                                         *)
-Example C05_index_out_of_range_finding :
+(* FIXED (repo 805a1f6; found here as the finding C05_index_out_of_range_finding).  An index that is out of range, or an
+   index on a value that is not a list, used NOT to make the reference unresolvable: the exception of the subscript was
+   suppressed (contextlib.suppress in _resolve_reference) and the reference resolved to the WHOLE referenced value
+   (d $l[5] gave [3, 5, 8]; f $q[0] gave 5, "$q[0] + 1" gave 6; inside "$l[1]+$l[10]" the list was substituted as text and
+   eval raised a TypeError the library does not catch).  Now such a reference is unresolvable and keeps its original text,
+   as the property says; the in-range element next to it is still found.  The theorems above never meet the case: only
+   in-range elements are names of psem p, so total_doc excludes such references. *)
+Example C05_index_out_of_range_fixed :
   let rd := fun t => read_full [(of_string "/w/root", FNative (of_string t))] (of_string "/w/root") true (-1) in
   let data := fun t => match rd t with Some (Ok (s, _)) => Some (sd_data s) | _ => None end in
-  (* l (3 5 8); d $l[5];          ->  d = [3, 5, 8] *)
+  (* l (3 5 8); d $l[5];          ->  d keeps its text *)
   data "l (3 5 8); d $l[5];"%string =
-    Some [(KS (of_string "l"), ex_ints [3; 5; 8]%Z); (KS (of_string "d"), ex_ints [3; 5; 8]%Z)] /\
-  (* q 5; f $q[0]; h "$q[0] + 1";  ->  f = 5, h = 6 *)
+    Some [(KS (of_string "l"), ex_ints [3; 5; 8]%Z); (KS (of_string "d"), Leaf (SStr (of_string "$l[5]")))] /\
+  (* q 5; f $q[0]; h "$q[0] + 1";  ->  both keep their text *)
   data "q 5; f $q[0]; h ""$q[0] + 1"";"%string =
-    Some [(KS (of_string "q"), Leaf (SInt 5)); (KS (of_string "f"), Leaf (SInt 5)); (KS (of_string "h"), Leaf (SInt 6))] /\
-  (* l (3 5 8); g "$l[1]+$l[10]";   ->  TypeError: unsupported operand type(s) for +: 'int' and 'list' *)
-  rd "l (3 5 8); g ""$l[1]+$l[10]"";"%string = None /\
+    Some [(KS (of_string "q"), Leaf (SInt 5)); (KS (of_string "f"), Leaf (SStr (of_string "$q[0]")));
+          (KS (of_string "h"), Leaf (SStr (of_string "$q[0] + 1")))] /\
+  (* l (3 5 8); g "$l[1]+$l[10]";   ->  the resolvable reference is substituted, the other one stays: no TypeError *)
+  data "l (3 5 8); g ""$l[1]+$l[10]"";"%string =
+    Some [(KS (of_string "l"), ex_ints [3; 5; 8]%Z); (KS (of_string "g"), Leaf (SStr (of_string "5+$l[10]")))] /\
   (* the resolver itself *)
-  resolve_reference [(KS (of_string "l"), ex_ints [3; 5; 8]%Z)] (of_string "$l[5]") = RVal (ex_ints [3; 5; 8]%Z) /\
+  resolve_reference [(KS (of_string "l"), ex_ints [3; 5; 8]%Z)] (of_string "$l[5]") = RNone /\
+  resolve_reference [(KS (of_string "q"), Leaf (SInt 5))] (of_string "$q[0]") = RNone /\
   resolve_reference [(KS (of_string "l"), ex_ints [3; 5; 8]%Z)] (of_string "$l[1]") = RVal (Leaf (SInt 5)).
 Proof. vm_compute. repeat split; reflexivity. Qed.
 
